@@ -15,12 +15,19 @@ SHAPES = {
                  ty="A", impl_g="", init="A::On(40)", base="match self { A::On(x) => *x, A::Off => 0 }"),
     "generic": dict(decl="#[derive(Actor, Debug, Clone, PartialEq)]\npub struct A<T: Send + Clone + std::fmt::Debug + PartialEq + 'static> { pub base: u32, pub t: T }",
                     ty="A<T>", impl_g="<T: Send + Clone + std::fmt::Debug + PartialEq + 'static>", init="A::<u8> { base: 40, t: 9 }", base="self.base"),
+    "generic_where": dict(decl="#[derive(Actor, Debug, Clone, PartialEq)]\npub struct A<T> where T: Send + Clone + std::fmt::Debug + PartialEq + 'static { pub base: u32, pub t: T }",
+                          ty="A<T>", impl_g="<T>", init="A::<u8> { base: 40, t: 9 }", base="self.base",
+                          where_="where T: Send + Clone + std::fmt::Debug + PartialEq + 'static"),
 }
 RETS = {
     "none": dict(sig="", ty="()", body="LAST.store(v, Ordering::SeqCst);", ok="()", err=None),
     "unit": dict(sig="-> ()", ty="()", body="LAST.store(v, Ordering::SeqCst);", ok="()", err=None),
     "u32": dict(sig="-> u32", ty="u32", body="LAST.store(v, Ordering::SeqCst); v", ok="V", err=None),
     "option": dict(sig="-> Option<u32>", ty="Option<u32>", body="LAST.store(v, Ordering::SeqCst); if msg.fail { None } else { Some(v) }", ok="Some(V)", err=None),
+    "opt_result": dict(sig="-> Option<Result<u32, CorpErr>>", ty="Option<Result<u32, CorpErr>>",
+                       body="LAST.store(v, Ordering::SeqCst); if msg.fail { Some(Err(CorpErr(v))) } else { Some(Ok(v)) }", ok="Some(Ok(V))", err=None),
+    "tuple_result": dict(sig="-> (Result<u32, CorpErr>, u32)", ty="(Result<u32, CorpErr>, u32)",
+                         body="LAST.store(v, Ordering::SeqCst); if msg.fail { (Err(CorpErr(v)), v) } else { (Ok(v), v) }", ok="(Ok(V), V)", err=None),
     "result": dict(sig="-> Result<u32, CorpErr>", ty="Result<u32, CorpErr>", ok="Ok(V)", err="Err(CorpErr(V))"),
     "std_result": dict(sig="-> std::result::Result<u32, CorpErr>", ty="std::result::Result<u32, CorpErr>", ok="Ok(V)", err="Err(CorpErr(V))"),
     "path_result": dict(sig="-> self::support::Result<u32>", ty="self::support::Result<u32>", ok="Ok(V)", err="Err(CorpErr(V))"),
@@ -34,9 +41,12 @@ ATTRS = {"plain": "#[handler]", "result": "#[handler(result)]", "no_log": "#[han
 
 def row_source(row):
     sh, rt = SHAPES[row["shape"]], RETS[row["ret"]]
-    if row["msg"] == "plain":
+    msg_pat = "msg"
+    if row["msg"] in ("plain", "path", "mutbind"):
         msg_decl = "pub struct M { pub x: u32, pub fail: bool }"
-        msg_ty = "M"
+        msg_ty = "self::M" if row["msg"] == "path" else "M"
+        if row["msg"] == "mutbind":
+            msg_pat = "mut msg"
         mk = lambda x, f: "M { x: %d, fail: %s }" % (x, "true" if f else "false")
     else:
         msg_decl = "pub struct M<G> { pub x: u32, pub fail: bool, pub tag: G }"
@@ -51,7 +61,7 @@ def row_source(row):
     extra_check = "(%s).helper() == 99" % sh["init"] if row["extra"] else "true"
     ok = lambda x: rt["ok"].replace("V", str(40 + x))
     err = lambda x: rt["err"].replace("V", str(40 + x)) if rt["err"] else None
-    spawn_ty = "A<u8>" if row["shape"] == "generic" else "A"
+    spawn_ty = "A<u8>" if row["shape"] in ("generic", "generic_where") else "A"
     ask_err_check = ("{ let v: %s = r.ask(%s).await.unwrap(); v == %s && LAST.load(Ordering::SeqCst) == 43 }" % (rt["ty"], mk(3, True), err(3))) if rt["err"] else \
                     ("{ let _v: %s = r.ask(%s).await.unwrap(); false }" % (rt["ty"], mk(3, True)))
     return f'''// generated from MacroTable row {json.dumps(row, sort_keys=True)}
@@ -73,9 +83,10 @@ pub static LAST: AtomicU32 = AtomicU32::new(0);
 {prev_decl}
 
 #[message_handlers]
-impl{sh["impl_g"]} {sh["ty"]} {{
+impl{sh["impl_g"]} {sh["ty"]} {sh.get("where_", "")} {{
 {extra}    {ATTRS[row["attr"]]}
-    async fn h(&mut self, msg: {msg_ty}, _r: &ActorRef<Self>) {rt["sig"]} {{
+    async fn h(&mut self, {msg_pat}: {msg_ty}, _r: &ActorRef<Self>) {rt["sig"]} {{
+        {"msg.x += 0;" if row["msg"] == "mutbind" else ""}
         let v: u32 = ({sh["base"]}) + msg.x;
         {rt["body"]}
     }}
